@@ -1114,11 +1114,19 @@ namespace simpl
     Problem pb;
     pb.ncells = tk.i();
     pb.table = (int)tk.i();
+    // variants (tens digit of the table token): 1 = a different absolute tolerance for every species; 2 = the same
+    // chain a million times faster over a time step a million times shorter (time scales below a microsecond);
+    // 3 = a fourth, inert species that stays exactly zero and has absolute tolerance zero
+    const int variant = pb.table / 10;
+    pb.table %= 10;
     pb.rtol = tokd(tk);
     pb.dt = tokd(tk);
     pb.h_start = tokd(tk);
     pb.nsteps = 1;
     pb.clamp = false;
+    const double time_scale = variant == 2 ? 1.0e-7 : 1.0;
+    pb.dt *= time_scale;
+    pb.h_start *= time_scale;
     std::vector<double> k1, k2, a0;
     for (std::size_t i = 0; i < pb.ncells; ++i)
       k1.push_back(tokd(tk));
@@ -1127,9 +1135,29 @@ namespace simpl
     for (std::size_t i = 0; i < pb.ncells; ++i)
       a0.push_back(tokd(tk));
     const double atol = 1.0e-13;
+    for (auto& v : k1)
+      v /= time_scale;
+    for (auto& v : k2)
+      v /= time_scale;
+    if (a0[0] < 0)
+      for (auto& v : a0)
+        v /= time_scale;   // the emission rate scales like a rate constant
+    // variant 1: concentrations of 1e-9, tight absolute tolerances on A and B, a loose one on the sink C (which feeds
+    // nothing back): the accuracy of A and B then rests on their own tolerances being used for them
+    if (variant == 1)
+      for (auto& v : a0)
+        v *= 1.0e-9;
+    const std::vector<double> atols = variant == 1 ? std::vector<double>{ 1.0e-17, 1.0e-17, 1.0e-6 } : std::vector<double>{ atol, atol, atol };
     Mech m;
     m.names = { 1, 2, 3 };
-    m.atol = { atol, atol, atol };
+    m.atol = atols;
+    if (variant == 3)
+    {
+      m.names.push_back(4);
+      m.atol.push_back(0.0);
+      c.order = { 0, 1, 2, 3 };
+    }
+    const std::size_t nsp = m.names.size();
     Rxn r1, r2;
     r1.reactants = { { 1, false } };
     r1.products = { std::make_tuple(2, false, 1.0) };
@@ -1150,6 +1178,8 @@ namespace simpl
       pb.y0.push_back(source ? 0.0 : a0[i]);
       pb.y0.push_back(0.0);
       pb.y0.push_back(0.0);
+      if (variant == 3)
+        pb.y0.push_back(0.0);
       if (source)
         pb.k.push_back(std::fabs(a0[i]));
       pb.k.push_back(k1[i]);
@@ -1212,8 +1242,8 @@ namespace simpl
       const long double exact[3] = { ea, eb, ec };
       for (int sp = 0; sp < 3; ++sp)
       {
-        long double got = o.y[i * 3 + sp];
-        long double scale = (long double)atol + (long double)pb.rtol * std::fabs(exact[sp]);
+        long double got = o.y[i * nsp + sp];
+        long double scale = (long double)atols[sp] + (long double)pb.rtol * std::fabs(exact[sp]);
 #ifdef KIND_BE
         scale = 1.0e-16L * (1 + std::fabs(exact[sp])) + 1e-300L;   // rounding only: 1e4 * 1e-16 relative
 #endif
